@@ -155,16 +155,12 @@ pub struct Cycle {
 impl Cycle {
     /// Creates a new [Cycle] adaptor
     pub fn new(iter: KIterator) -> Self {
-        let (lower_bound, _) = iter.size_hint();
-        let size_hint = if lower_bound < usize::MAX {
-            lower_bound
-        } else {
-            0
-        };
-
         Self {
             iter,
-            cache: Vec::with_capacity(size_hint),
+            // The cache gets filled lazily, so it isn't reserved up front:
+            // the size hint of a long or endless input (e.g. `x.cycle().skip(1).cycle()`)
+            // would overflow the capacity or exhaust the available memory.
+            cache: Vec::new(),
             cycle_index: 0,
         }
     }
